@@ -14,7 +14,7 @@ From Anthem Require Import Base.ISet Syntax.Fol Syntax.Asp Sem.Domain Sem.Sat Se
   Model.Problem Model.Outline Model.Strong Model.External Model.Tightness Model.PrivRec Model.TauStar
   Model.Completion Model.StrategyCls Model.ExternalFull
   Proofs.SemBase Proofs.DecomposeOk Proofs.StrongOk Proofs.ExternalOk Proofs.AssemblyOk Proofs.RenameOk
-  Proofs.C02Ok Proofs.FagesBridge Proofs.PlaceholderOk Proofs.C02Full Proofs.TightnessOk Proofs.PrivateUnique
+  Proofs.C19Ext Proofs.C02Ok Proofs.FagesBridge Proofs.PlaceholderOk Proofs.C02Full Proofs.TightnessOk Proofs.PrivateUnique
   Proofs.CompletionOk Proofs.HeadPred Proofs.HeadPredPipeline Proofs.C02Priv Proofs.C02Behaviour.
 Open Scope string_scope.
 Open Scope list_scope.
@@ -95,7 +95,7 @@ Theorem C02_modulo_private_uniqueness :
     is_tight L = true -> is_tight (et_program t) = true ->
     task_left tau_star_total completion (simp_classic_total fuel) t L = Some lft ->
     task_right tau_star_total completion (simp_classic_total fuel) t = Some rgt ->
-    (forall uga, validated_no_clash (mkvalidated lft rgt uga empty_outline (et_decomposition t) (et_direction t) (et_break t))) ->
+    (forall vt, task_validated tau_star_total completion (simp_classic_total fuel) t = Some vt -> validated_no_clash vt) ->
     forall (FI : fint) (M : pint),
       tvalid FI M (map (fun a => rp_formula (task_placeholders t) (an_formula a)) (filter is_assumption (ug_formulas (et_user_guide t)))) ->
       tvalid FI M (assumptions_of lft) -> tvalid FI M (assumptions_of rgt) ->
@@ -241,7 +241,7 @@ Theorem C02_behaviour :
     is_tight L = true -> is_tight (et_program t) = true ->
     task_left tau_star_total completion (simp_classic_total fuel) t L = Some lft ->
     task_right tau_star_total completion (simp_classic_total fuel) t = Some rgt ->
-    (forall uga, validated_no_clash (mkvalidated lft rgt uga empty_outline (et_decomposition t) (et_direction t) (et_break t))) ->
+    (forall vt, task_validated tau_star_total completion (simp_classic_total fuel) t = Some vt -> validated_no_clash vt) ->
     forall (FI : fint) (M : pint),
       tvalid FI M (map (fun a => rp_formula (task_placeholders t) (an_formula a)) (filter is_assumption (ug_formulas (et_user_guide t)))) ->
       tvalid FI M (assumptions_of lft) -> tvalid FI M (assumptions_of rgt) ->
@@ -265,7 +265,7 @@ Theorem C02_countermodel_sound :
     is_tight L = true -> is_tight (et_program t) = true ->
     task_left tau_star_total completion (simp_classic_total fuel) t L = Some lft ->
     task_right tau_star_total completion (simp_classic_total fuel) t = Some rgt ->
-    (forall uga, validated_no_clash (mkvalidated lft rgt uga empty_outline (et_decomposition t) (et_direction t) (et_break t))) ->
+    (forall vt, task_validated tau_star_total completion (simp_classic_total fuel) t = Some vt -> validated_no_clash vt) ->
     forall (FI : fint) (M : pint),
       refutes_some FI M pbs ->
       (dir_forward (et_direction t) = true /\
